@@ -801,11 +801,26 @@ class Scope:
 
     # ------------------------------------------------------------------ calls
     def call(self, e: ast.Call, out, stack) -> Val:
-        args = [self.expr(a, out, stack) for a in e.args]
+        args = []
+        star_from = None
+        for i, a in enumerate(e.args):
+            v = self.expr(a, out, stack)
+            if isinstance(a, ast.Starred):
+                star_from = i if star_from is None else star_from
+                v = v.loaded()
+            args.append(v)
+        if star_from is not None:  # positions are unknown from the first `*iterable` on: every later slot may get any of them
+            tail = Val(arr=True)
+            for v in args[star_from:]:
+                tail = tail | v
+            args = args[:star_from] + [tail] * 12
         kwargs = {}
         for k in e.keywords:
             kwargs[k.arg or "**"] = self.expr(k.value, out, stack)
-        AP = ([self.pair_of(a) for a in e.args], {(k.arg or "**"): self.pair_of(k.value) for k in e.keywords})
+        AP = ([self.pair_of(a) for a in e.args] + [None] * 12, {(k.arg or "**"): self.pair_of(k.value) for k in e.keywords})
+        if "**" in kwargs:
+            kwargs["**"] = kwargs["**"].loaded()
+            AP[1].pop("**", None)
         allargs = args + list(kwargs.values())
         union = Val(arr=True)
         for a in allargs:
@@ -898,6 +913,9 @@ class Scope:
                 if not self.is_arr(recv) and name in STORING_METHODS:
                     self.absorb(f.value, recv, union, out)
                 res = res | recv.loaded()
+                handled = True
+            elif name == "astype" and "copy" in kwargs:
+                res = res | recv.loaded()  # astype(..., copy=False) may return the array itself
                 handled = True
             elif name in FRESH_METHODS and not (on_self and cands):
                 res = res | FRESH
@@ -1007,7 +1025,7 @@ class Scope:
         for i, v in enumerate(args):
             if i < len(positional):
                 bound[positional[i]] = v
-            else:
+            elif a.vararg or i < 12:
                 extra = extra | v
         for k, v in kwargs.items():
             if k in positional or k in kwonly:
@@ -1038,6 +1056,8 @@ class Scope:
                 sc.bind(out, pairs[name], val)
             elif (a.vararg and name == a.vararg.arg) or (a.kwarg and name == a.kwarg.arg):
                 sc.bind(out, pairs[name], extra.container())
+            elif "**" in kwargs:
+                sc.bind(out, pairs[name], kwargs["**"])  # `**mapping`: any unbound parameter may receive any of its values
             else:
                 sc.bind(out, pairs[name], FRESH)  # defaults are module-level constants
             if name not in bound or not self.is_arr(bound[name]):
